@@ -38,6 +38,20 @@ CLAIMS = {
         design_ref="5/C04",
         note=TRUST + "; Canon.build is the definition of canonical LR(1) (trusted, ~100 lines)",
         technique="Lean 4 verified certificate checker (canonical LR(1) cover) run on the real table"),
+    "C15": dict(
+        category="proof",
+        text=("PARTIAL. Proved (C15_lr_no_panic, C15_lr_no_panic_any_lexer): the Lean model of LRParser::parse — in which every unwrap / "
+              "index / split_off / expected[0] of lr/parser.rs, lr/builder.rs, error.rs is an explicit panic outcome — never reaches a "
+              "panic site, for every input, every recognizer function, whitespace skipping or Layout rule, partial parsing on/off, the "
+              "default string lexer and adversarial user lexers that ignore the expected set (unexpected kinds surface as Err), given "
+              "the executable certificates Cert.structural and Cert.total on the real table (also for the layout automaton). Tie A: "
+              "outcome class (ok/err/panic/timeout) of the real parsers under catch_unwind + watchdog vs the model on arbitrary "
+              "Unicode (empty, multi-byte, control characters, long) with default and three adversarial lexers; Tie B: certificates "
+              "executed on every real table. NOT proved: termination (model takes fuel; hangs are decided by the watchdog; known "
+              "finding F14: terminals matching the empty string) and the GLR half (oracle on the real parser only)."),
+        design_ref="5/C15",
+        note=TRUST + "; byte/char-boundary slicing is by construction of the recognizers (they return a prefix &str) and exercised by multi-byte inputs only",
+        technique="Lean 4 invariant proof (no panic site reachable) + verified table certificates + differential outcome classes under catch_unwind/watchdog"),
     "C17": dict(
         category="proof",
         text=("Theorems C17_cli_maps_to_settings (for every environment and every Cli value the builder calls of rcomp's main, transcribed "
